@@ -97,7 +97,7 @@ func init() {
 
 func init() {
 	cfgs["C11"] = &propCfg{
-		Workers: map[string]int{"pristine": 11, "instr": 5},
+		Workers: map[string]int{"pristine": 9, "instr": 4, "pristine-race": 3},
 		QuickS:  30, ThorS: 600,
 		Real: []string{"TsigGenerate / TsigGenerateWithProvider, TsigVerify / TsigVerifyWithProvider, tsigBuffer, stripTsig, tsigHMACProvider, tsigSecretProvider", "Client.ExchangeWithConn + Conn.WriteMsg/ReadMsg session state (tsigRequestMAC)", "Server + response.WriteMsg/TsigStatus session state", "Msg.SetTsig, Msg.Pack/Unpack", "(chains through Transfer.In/Out: exercised under C15 with the same oracle)"},
 		Stub: append([]string{"the on-path attacker: a harness middlebox with its own frame parser", "bare-API runs have no transport: signer and verifier are two steps of one task under the fake clock"}, stubCommon...),
